@@ -205,6 +205,24 @@ def check_block_tail(ctx):
               "avail computed as %s" % [key(x["rhs"]) for x in av])
     wi = ctx.fn("ldb_writer_init", LW)
     bo = [e for b, i, e in wi.events("asg") if key(e["lhs"]) == "lw->block_offset"]
+    def _narrowed(t):
+        """a cast to a type narrower than 64 bits somewhere on the way from `length` to the modulo"""
+        st = [t]
+        while st:
+            n = st.pop()
+            if isinstance(n, dict):
+                if n.get("k") == "cast" and "length" in key(n.get("x")) and n.get("t") in ("int", "unsigned int", "uint32_t", "int32_t", "short",
+                                                                                         "unsigned short", "uint16_t", "long int32", "unsigned"):
+                    x = n.get("x")
+                    if not (isinstance(x, dict) and x.get("k") == "bin" and x.get("op") == "%"):
+                        return True
+                st.extend(v for v in n.values() if isinstance(v, (dict, list)))
+            elif isinstance(n, list):
+                st.extend(n)
+        return False
+    ctx.check(len(bo) == 1 and not _narrowed(bo[0]["rhs"]), "T2-log-reuse-offset", "writer_init:64-bit", wi.name, wi.loc,
+              "the file length is reduced modulo the block size in 64 bits (a cast to int first wraps for files over 2 GiB)",
+              "the initial length is narrowed before the modulo: %s" % (show(bo[0]["rhs"]) if bo else None))
     ctx.check(len(bo) == 1 and key(bo[0]["rhs"]) == "(length % 32768)", "T2-log-reuse-offset", "writer_init",
               wi.name, wi.loc, "block_offset = length % LDB_BLOCK_SIZE",
               "block_offset initialised as %s" % [key(x["rhs"]) for x in bo])
